@@ -1,6 +1,947 @@
-//! C13 — stub (not built yet).
+//! C13 — generated NSEC/NSEC3 chains are complete, ordered, closed and
+//! exactly typed (feature `unstable-sign`).
+//!
+//! Sub-checks
+//! * `nsec`   — generated zone -> `SortedRecords` -> `generate_nsecs`; the
+//!   returned records are decoded with independent walkers and compared with
+//!   the chain computed from the zone *model*; absent (name, type) probes must
+//!   be deniable from the returned records.
+//! * `nsec3`  — the same for `generate_nsec3s` (hash order, ring closure, ENTs,
+//!   opt-out, parameters, NSEC3PARAM).
+//! * `bitmap` — `RtypeBitmapBuilder` against an independent RFC 4034 §4.1.2
+//!   encoder/decoder.
+//! * `hash`   — `nsec3_hash` / `mk_hashed_nsec3_owner_name` against iterated
+//!   SHA-1 (`ring::digest`) + base32hex.
+pub mod denial;
+pub mod model;
+pub mod refs;
+
 use crate::engine::*;
+use crate::gen::{byte, chance, pick, range, u16_, u32_};
+use crate::{vensure, vfail};
+use arbitrary::Unstructured;
+use bytes::Bytes;
+use denial::*;
+use domain::base::iana::{Class, DigestAlgorithm, Nsec3HashAlgorithm, Rtype, SecurityAlgorithm};
+use domain::base::name::{Name, ToName};
+use domain::base::rdata::{ComposeRecordData, UnknownRecordData};
+use domain::base::{Record, Serial, Ttl};
+use domain::dnssec::common::nsec3_hash as lib_nsec3_hash;
+use domain::dnssec::sign::denial::nsec::{generate_nsecs, GenerateNsecConfig};
+use domain::dnssec::sign::denial::nsec3::{generate_nsec3s, mk_hashed_nsec3_owner_name, GenerateNsec3Config, Nsec3ParamTtlMode};
+use domain::dnssec::sign::records::{DefaultSorter, RecordsIter, SortedRecords};
+use domain::rdata::dnssec::{RtypeBitmap, RtypeBitmapBuilder};
+use domain::rdata::nsec3::{Nsec3Salt, OwnerHash};
+use domain::rdata::{Aaaa, Cname, Dnskey, Ds, Mx, Ns, Nsec3param, Soa, Txt, ZoneRecordData, A};
+use model::*;
+use refs::*;
+use std::collections::{BTreeMap, BTreeSet};
+
+type N = Name<Bytes>;
+type D = ZoneRecordData<Bytes, N>;
+type R = Record<N, D>;
+
+fn to_name(l: &Labels) -> N {
+    Name::from_octets(Bytes::from(to_wire(l))).expect("generated name must be valid")
+}
+
+fn from_name<T: ToName>(n: &T) -> Labels {
+    n.iter_labels().filter(|l| !l.is_root()).map(|l| l.as_slice().to_vec()).collect()
+}
+
+fn to_record(z: &Zone, r: &ZRec) -> R {
+    let data: D = match &r.rd {
+        Rd::Soa { serial, minimum } => {
+            let mut m = z.apex.clone();
+            if wire_len(&m) + 3 <= 255 {
+                m.insert(0, b"ns".to_vec());
+            }
+            ZoneRecordData::Soa(Soa::new(
+                to_name(&m),
+                to_name(&z.apex),
+                Serial(*serial),
+                Ttl::from_secs(7200),
+                Ttl::from_secs(900),
+                Ttl::from_secs(1209600),
+                Ttl::from_secs(*minimum),
+            ))
+        }
+        Rd::Name(n) if r.rtype == NS => ZoneRecordData::Ns(Ns::new(to_name(n))),
+        Rd::Name(n) => ZoneRecordData::Cname(Cname::new(to_name(n))),
+        Rd::Mx(p, n) => ZoneRecordData::Mx(Mx::new(*p, to_name(n))),
+        Rd::A(a) => ZoneRecordData::A(A::from_octets(a[0], a[1], a[2], a[3])),
+        Rd::Aaaa(a) => ZoneRecordData::Aaaa(Aaaa::new((*a).into())),
+        Rd::Txt(t) => ZoneRecordData::Txt(Txt::build_from_slice(t).expect("txt")),
+        Rd::Ds(k, alg, dt, d) => ZoneRecordData::Ds(
+            Ds::new(*k, SecurityAlgorithm::from_int(*alg), DigestAlgorithm::from_int(*dt), Bytes::from(d.clone())).expect("ds"),
+        ),
+        Rd::Dnskey(f, alg, k) => ZoneRecordData::Dnskey(Dnskey::new(*f, 3, SecurityAlgorithm::from_int(*alg), Bytes::from(k.clone())).expect("dnskey")),
+        Rd::Nsec3param(it, salt) => ZoneRecordData::Nsec3param(Nsec3param::new(
+            Nsec3HashAlgorithm::SHA1,
+            0,
+            *it,
+            Nsec3Salt::from_octets(Bytes::from(salt.clone())).expect("salt"),
+        )),
+        Rd::Unknown(d) => ZoneRecordData::Unknown(UnknownRecordData::from_octets(Rtype::from_int(r.rtype), Bytes::from(d.clone())).expect("unknown")),
+    };
+    Record::new(to_name(&r.owner), Class::from_int(z.class), Ttl::from_secs(r.ttl), data)
+}
+
+/// Builds the sorted collection through one of the public ways.
+fn build_sorted(z: &Zone, how: usize) -> SortedRecords<N, D> {
+    let recs: Vec<R> = z.recs.iter().map(|r| to_record(z, r)).collect();
+    match how {
+        0 => SortedRecords::<N, D, DefaultSorter>::from(recs),
+        1 => recs.into_iter().collect(),
+        _ => {
+            let mut s = SortedRecords::<N, D, DefaultSorter>::new();
+            for r in recs {
+                let _ = s.insert(r); // Err = exact duplicate
+            }
+            s
+        }
+    }
+}
+
+/// `SortedRecords` must hold the generated records in canonical owner order,
+/// types ascending within an owner; `RecordsIter`/`OwnerRrs` must group them by
+/// owner and classify cuts / in-zone the way the model does.
+fn check_sorted(z: &Zone, a: &Analysis, sr: &SortedRecords<N, D>) -> CaseResult {
+    use std::cmp::Ordering::*;
+    let mut want: BTreeSet<(Canon, u16)> = BTreeSet::new();
+    for r in &z.recs {
+        want.insert((Canon::of(&r.owner), r.rtype));
+    }
+    let mut got: BTreeSet<(Canon, u16)> = BTreeSet::new();
+    let mut prev: Option<(Labels, u16)> = None;
+    for r in sr.iter() {
+        let o = from_name(r.owner());
+        let t = r.rtype().to_int();
+        if let Some((po, pt)) = &prev {
+            match canon_cmp(po, &o) {
+                Less => {}
+                Equal => vensure!(*pt <= t, "sorted:types-not-ascending-within-owner", "{} type {pt} before {t}", show(&o)),
+                Greater => vfail!("sorted:owners-not-in-canonical-order", "{} sorted before {}", show(po), show(&o)),
+            }
+        }
+        got.insert((Canon::of(&o), t));
+        prev = Some((o, t));
+    }
+    vensure!(got == want, "sorted:records-lost-or-invented", "want {} (owner,type) pairs, got {}", want.len(), got.len());
+    vensure!(sr.len() <= z.recs.len(), "sorted:records-lost-or-invented", "more records than inserted");
+    // grouping
+    let apex = to_name(&z.apex);
+    let mut prev: Option<Labels> = None;
+    let mut groups = 0;
+    for g in sr.owner_rrs() {
+        groups += 1;
+        let o = from_name(g.owner());
+        if let Some(p) = &prev {
+            vensure!(canon_cmp(p, &o) == Less, "records-iter:owner-group-split-or-unordered", "{} then {}", show(p), show(&o));
+        }
+        let mut pt: Option<u16> = None;
+        let mut types = BTreeSet::new();
+        for rs in g.rrsets() {
+            let t = rs.rtype().to_int();
+            if let Some(p) = pt {
+                vensure!(p < t, "records-iter:rrset-split", "type {p} then {t} at {}", show(&o));
+            }
+            pt = Some(t);
+            types.insert(t);
+            for r in rs.iter() {
+                vensure!(r.rtype().to_int() == t && name_eq(&from_name(r.owner()), &o), "records-iter:foreign-record-in-rrset", "{}", show(&o));
+            }
+        }
+        let inz = ends_with(&o, &z.apex);
+        vensure!(g.is_in_zone(&apex) == inz, "owner-rrs:is_in_zone", "{} apex {}", show(&o), show(&z.apex));
+        if inz {
+            let m = &a.owners[&Canon::of(&o)];
+            vensure!(types == m.types, "records-iter:types-of-owner", "{}: {:?} vs {:?}", show(&o), types, m.types);
+            let cut = !name_eq(&o, &z.apex) && types.contains(&NS);
+            vensure!(g.is_zone_cut(&apex) == cut, "owner-rrs:is_zone_cut", "{} -> {}", show(&o), !cut);
+        }
+        prev = Some(o);
+    }
+    let distinct: BTreeSet<Canon> = z.recs.iter().map(|r| Canon::of(&r.owner)).collect();
+    vensure!(groups == distinct.len(), "records-iter:owner-group-split-or-unordered", "{groups} groups for {} owners", distinct.len());
+    Ok(())
+}
+
+fn zone_classes(z: &Zone, a: &Analysis, ctx: &mut Ctx) -> bool {
+    let n_auth = a.owners.values().filter(|o| o.authoritative).count();
+    if n_auth == 1 {
+        ctx.class("zone:apex-only");
+    }
+    let cuts: Vec<_> = a.owners.iter().filter(|(_, o)| o.is_cut).collect();
+    if !cuts.is_empty() {
+        ctx.class("zone:delegation");
+    }
+    if cuts.iter().any(|(_, o)| o.has_ds()) {
+        ctx.class("zone:signed-delegation");
+    }
+    if cuts.iter().any(|(_, o)| !o.has_ds()) {
+        ctx.class("zone:unsigned-delegation");
+    }
+    if cuts.iter().any(|(_, o)| o.types.iter().any(|t| *t != NS && *t != DS)) {
+        ctx.class("zone:child-data-at-cut");
+    }
+    if a.n_nonauth > 0 {
+        ctx.class("zone:glue-or-occluded");
+    }
+    if a.owners.iter().any(|(_, o)| !o.authoritative && o.types.contains(&NS)) {
+        ctx.class("zone:occluded-ns-below-cut");
+    }
+    if a.last_is_nonauth {
+        ctx.class("zone:glue-sorts-last");
+    }
+    if !a.ents_all.is_empty() {
+        ctx.class("zone:ent");
+    }
+    if a.shared_ent {
+        ctx.class("zone:ent-shared");
+    }
+    if a.nested_ent {
+        ctx.class("zone:ent-nested");
+    }
+    if a.owners.iter().any(|(n, o)| o.authoritative && n.0.first().map(|l| l == b"*").unwrap_or(false)) {
+        ctx.class("zone:wildcard");
+    }
+    if a.case_variants {
+        ctx.class("zone:case-variant-owners");
+    }
+    if a.n_out_before > 0 {
+        ctx.class("zone:out-of-zone-before");
+    }
+    if a.n_out_after > 0 {
+        ctx.class("zone:out-of-zone-after");
+    }
+    if z.apex.is_empty() {
+        ctx.class("zone:root-apex");
+    }
+    let mut windows = BTreeSet::new();
+    for o in a.owners.values().filter(|o| o.authoritative) {
+        let w: BTreeSet<u8> = o.visible_types().iter().map(|t| (t >> 8) as u8).collect();
+        if w.len() >= 3 {
+            ctx.class("zone:three-or-more-windows-at-one-name");
+        }
+        windows.extend(w);
+    }
+    if windows.contains(&255) {
+        ctx.class("zone:type-in-window-255");
+    }
+    if windows.contains(&4) {
+        ctx.class("zone:type-1234");
+    }
+    if a.owners.values().any(|o| o.authoritative && o.visible_types().contains(&255)) {
+        ctx.class("zone:type-255");
+    }
+    if a.owners.values().any(|o| o.authoritative && o.visible_types().contains(&256)) {
+        ctx.class("zone:type-256");
+    }
+    if z.class != 1 {
+        ctx.class("zone:class-not-in");
+    }
+    if n_auth >= 20 {
+        ctx.class("zone:20+names");
+    }
+    a.n_nonauth > 0 || !a.ents_all.is_empty() || a.case_variants
+}
+
+/// Probe names derived from the zone: existing names, children, siblings,
+/// ancestors, wildcards, case flips, names below cuts, random names.
+fn gen_probe(u: &mut Unstructured, z: &Zone, a: &Analysis) -> (Labels, u16) {
+    let names: Vec<&Canon> = a.owners.keys().collect();
+    let base: Labels = if names.is_empty() { z.apex.clone() } else { names[pick(u, names.len())].0.clone() };
+    let lbls: &[&[u8]] = &[b"a", b"b", b"*", b"zz", b"\x00", b"www", b"0", b"ns", b"\xff", b"A", b"sub", b"c", b"x", b"_"];
+    let mut q: Labels = match pick(u, 12) {
+        0 | 1 => base.clone(),
+        2 | 3 => {
+            let mut n = base.clone();
+            n.insert(0, lbls[pick(u, lbls.len())].to_vec());
+            n
+        }
+        4 => {
+            // neighbour in canonical order: tweak the first label
+            let mut n = base.clone();
+            if n.len() > z.apex.len() {
+                let l = &mut n[0];
+                match pick(u, 4) {
+                    0 => l.push(0),
+                    1 => {
+                        let k = l.len() - 1;
+                        if l[k] > 0 {
+                            l[k] -= 1;
+                        } else {
+                            l.pop();
+                        }
+                    }
+                    2 => {
+                        let k = l.len() - 1;
+                        l[k] = l[k].wrapping_add(1);
+                    }
+                    _ => l.insert(0, b'a'),
+                }
+                if l.is_empty() || l.len() > 63 {
+                    *l = b"q".to_vec();
+                }
+            }
+            n
+        }
+        5 => {
+            // an ancestor (ENT or existing)
+            let anc = ancestors_within(&base, &z.apex);
+            if anc.is_empty() { z.apex.clone() } else { anc[pick(u, anc.len())].clone() }
+        }
+        6 => {
+            let mut n = base.clone();
+            n.insert(0, b"*".to_vec());
+            n
+        }
+        7 => {
+            let mut n = base.clone();
+            for _ in 0..2 + pick(u, 2) {
+                n.insert(0, lbls[pick(u, lbls.len())].to_vec());
+            }
+            n
+        }
+        8 => base.iter().map(|l| l.iter().map(|c| if c.is_ascii_alphabetic() && byte(u) & 1 == 1 { c ^ 0x20 } else { *c }).collect()).collect(),
+        9 => {
+            // child of an ENT / ancestor
+            let anc = ancestors_within(&base, &z.apex);
+            let mut n = if anc.is_empty() { z.apex.clone() } else { anc[pick(u, anc.len())].clone() };
+            n.insert(0, lbls[pick(u, lbls.len())].to_vec());
+            n
+        }
+        10 => {
+            let mut n = z.apex.clone();
+            let k = 1 + pick(u, 3);
+            for _ in 0..k {
+                let len = 1 + pick(u, 3);
+                n.insert(0, (0..len).map(|_| byte(u)).collect());
+            }
+            n
+        }
+        _ => {
+            let mut n = z.apex.clone();
+            n.insert(0, lbls[pick(u, lbls.len())].to_vec());
+            n
+        }
+    };
+    if wire_len(&q) > 255 || !ends_with(&q, &z.apex) {
+        q = z.apex.clone();
+    }
+    let present: Vec<u16> = a.owners.get(&Canon::of(&q)).map(|o| o.types.iter().copied().collect()).unwrap_or_default();
+    let t = match pick(u, 8) {
+        0 | 1 => [A, AAAA, NS, DS, TXT, MX, CNAME, SOA, DNSKEY, NSEC3PARAM][pick(u, 10)],
+        2 => UNKNOWN_POOL[pick(u, UNKNOWN_POOL.len())],
+        3 if !present.is_empty() => present[pick(u, present.len())],
+        4 => [NSEC, RRSIG, 50, 0, 255][pick(u, 5)],
+        5 => u16_(u),
+        _ => [A, AAAA, 1234, 65280][pick(u, 4)],
+    };
+    (q, t)
+}
+
+fn kind_of(a: &Analysis, z: &Zone, n: &Labels) -> &'static str {
+    if !ends_with(n, &z.apex) {
+        return "out-of-zone-name";
+    }
+    match a.owners.get(&Canon::of(n)) {
+        Some(o) if !o.authoritative => "name-below-cut",
+        Some(o) if o.is_apex => "apex",
+        Some(o) if o.is_cut && o.has_ds() => "signed-delegation",
+        Some(o) if o.is_cut => "unsigned-delegation",
+        Some(_) if n.first().map(|l| l == b"*").unwrap_or(false) => "wildcard",
+        Some(_) => "plain-name",
+        None if a.ents_all.contains(&Canon::of(n)) => "ent",
+        None if a.covering_cut(n).is_some() => "name-below-cut",
+        None => "name-not-in-zone-data",
+    }
+}
+
+/// Self-test switch (sensitivity runs only): with VERIF_C13_DENIAL_ONLY set
+/// the exact chain comparison is skipped so that a mutant has to be caught
+/// by the denial probes alone.
+fn denial_only() -> bool {
+    std::env::var_os("VERIF_C13_DENIAL_ONLY").is_some()
+}
+
+fn expected_ttl(z: &Zone) -> u32 {
+    z.soa_ttl.min(z.soa_min)
+}
+
+//------------ nsec ------------------------------------------------------------
+
+fn run_nsec(data: &[u8], ctx: &mut Ctx) -> CaseResult {
+    let mut u = Unstructured::new(data);
+    // configuration first, so that it does not starve when the zone uses up
+    // the input; all-zero input = default configuration
+    let dnskey = byte(&mut u) % 3 != 1;
+    let how = pick(&mut u, 3);
+    let via_refs = byte(&mut u) % 3 == 1;
+    let apex_case = byte(&mut u) % 4 == 1;
+    let nprobes = range(&mut u, 5, 24);
+    let z = gen_zone(&mut u, true);
+    let a = analyse(&z);
+    let interesting = zone_classes(&z, &a, ctx);
+    ctx.class(if dnskey { "cfg:assume-dnskey" } else { "cfg:no-dnskey" });
+    ctx.sample(|| format!("dnskey={dnskey} {}", show_zone(&z)));
+
+    let sr = build_sorted(&z, how);
+    check_sorted(&z, &a, &sr)?;
+    let apex_l: Labels = if apex_case { z.apex.iter().map(|l| l.iter().map(|c| if c.is_ascii_alphabetic() { c ^ 0x20 } else { *c }).collect()).collect() } else { z.apex.clone() };
+    let apex = to_name(&apex_l);
+    let cfg = if dnskey { GenerateNsecConfig::new() } else { GenerateNsecConfig::new().without_assuming_dnskeys_will_be_added() };
+    let refs: Vec<&R> = sr.iter().collect();
+    let res = if via_refs { generate_nsecs(&apex, RecordsIter::new_from_refs(&refs), &cfg) } else { generate_nsecs(&apex, sr.owner_rrs(), &cfg) };
+    let nsecs = match res {
+        Ok(v) => v,
+        Err(e) => vfail!("nsec:error-on-valid-zone", "generate_nsecs returned {e:?} for {}", show_zone(&z)),
+    };
+
+    // decode what was returned
+    let mut chain: Vec<NsecRec> = vec![];
+    for r in &nsecs {
+        let owner = from_name(r.owner());
+        let mut rd = vec![];
+        r.data().compose_rdata(&mut rd).expect("compose");
+        let (next, types) = match parse_nsec_rdata(&rd) {
+            Ok(x) => x,
+            Err(e) => vfail!("nsec:bitmap-malformed", "NSEC at {}: {e}; rdata {:02x?}", show(&owner), rd),
+        };
+        // accessors agree with the wire form
+        let acc: BTreeSet<u16> = r.data().types().iter().map(|t| t.to_int()).collect();
+        vensure!(acc == types, "nsec:bitmap-iter-differs-from-wire", "{:?} vs {:?}", acc, types);
+        vensure!(name_eq(&from_name(r.data().next_name()), &next), "nsec:next-accessor-differs-from-wire", "{}", show(&owner));
+        vensure!(r.class().to_int() == z.class, "nsec:class", "NSEC at {} has class {} zone {}", show(&owner), r.class(), z.class);
+        vensure!(r.ttl().as_secs() == expected_ttl(&z), "nsec:ttl", "NSEC at {} has TTL {} want min({}, {})", show(&owner), r.ttl().as_secs(), z.soa_ttl, z.soa_min);
+        chain.push(NsecRec { owner, next, types });
+    }
+    let exp = a.expected_nsec(dnskey);
+    let denial_only = denial_only();
+    if !denial_only {
+    // every owner is an authoritative name, once
+    let mut seen = BTreeSet::new();
+    for r in &chain {
+        let k = kind_of(&a, &z, &r.owner);
+        vensure!(
+            a.auth_owner(&r.owner).is_some(),
+            format!("nsec:chain-has-{k}"),
+            "NSEC at {} which is {k}; zone {}",
+            show(&r.owner),
+            show_zone(&z)
+        );
+        vensure!(seen.insert(Canon::of(&r.owner)), "nsec:duplicate-owner", "{}", show(&r.owner));
+    }
+    for (n, _) in &exp {
+        if !seen.contains(n) {
+            vfail!(format!("nsec:chain-misses-{}", kind_of(&a, &z, &n.0)), "no NSEC at {}; zone {}", show(&n.0), show_zone(&z));
+        }
+    }
+    vensure!(chain.len() == exp.len(), "nsec:chain-length", "{} vs {}", chain.len(), exp.len());
+    for (i, r) in chain.iter().enumerate() {
+        vensure!(name_eq(&r.owner, &exp[i].0 .0), "nsec:chain-not-in-canonical-order", "position {i}: {} want {}", show(&r.owner), show(&exp[i].0 .0));
+    }
+    for (i, r) in chain.iter().enumerate() {
+        let want_next = &exp[(i + 1) % exp.len()].0 .0;
+        if !name_eq(&r.next, want_next) {
+            if i + 1 == chain.len() {
+                vfail!("nsec:last-does-not-point-to-apex", "last NSEC {} -> {}", show(&r.owner), show(&r.next));
+            }
+            vfail!(
+                format!("nsec:next-is-not-successor:got-{}", kind_of(&a, &z, &r.next)),
+                "{} -> {} want {}",
+                show(&r.owner),
+                show(&r.next),
+                show(want_next)
+            );
+        }
+        let k = kind_of(&a, &z, &r.owner);
+        let want = &exp[i].1;
+        if let Some(t) = r.types.difference(want).next() {
+            vfail!(format!("nsec:bitmap-extra-type-at-{k}"), "NSEC at {} lists type {t}; want {:?} got {:?}", show(&r.owner), want, r.types);
+        }
+        if let Some(t) = want.difference(&r.types).next() {
+            vfail!(format!("nsec:bitmap-missing-type-at-{k}"), "NSEC at {} lacks type {t}; want {:?} got {:?}", show(&r.owner), want, r.types);
+        }
+    }
+    }
+    // denial probes
+    let mut pcl = vec![];
+    for _ in 0..nprobes {
+        let (q, t) = gen_probe(&mut u, &z, &a);
+        if let Err((sig, d)) = nsec_denial(&chain, &a, dnskey, &q, t, &mut pcl) {
+            vfail!(sig, "probe ({}, {t}): {d}; zone {}", show(&q), show_zone(&z));
+        }
+    }
+    for c in pcl {
+        ctx.class(format!("nsec-{c}"));
+    }
+    if interesting {
+        ctx.nontrivial(&(&z, dnskey, how, via_refs));
+    }
+    Ok(())
+}
+
+//------------ nsec3 -----------------------------------------------------------
+
+struct N3Cfg {
+    salt: Vec<u8>,
+    iterations: u16,
+    opt_out: bool,
+    exclude: bool,
+    dnskey: bool,
+    ttl_mode: u8,
+    fixed_ttl: u32,
+}
+
+fn gen_n3cfg(u: &mut Unstructured) -> N3Cfg {
+    let thorough = byte(u) >= 240;
+    let sl = match pick(u, 8) {
+        0 | 1 => 0,
+        2 => 1,
+        3 => 8,
+        4 => 255,
+        5 => 254,
+        _ => pick(u, 256),
+    };
+    let salt: Vec<u8> = (0..sl).map(|_| byte(u)).collect();
+    let maxit = if thorough { 500 } else { 50 };
+    let iterations = match pick(u, 8) {
+        0 | 1 => 0,
+        2 => 1,
+        3 => 2,
+        4 => maxit,
+        _ => pick(u, maxit as usize + 1) as u16,
+    };
+    let opt_out = byte(u) % 2 == 1;
+    let exclude = byte(u) % 3 != 1;
+    let dnskey = byte(u) % 3 != 1;
+    let ttl_mode = pick(u, 3) as u8;
+    let fixed_ttl = [0u32, 3600, 1, 0xffff_ffff][pick(u, 4)];
+    N3Cfg { salt, iterations, opt_out, exclude, dnskey, ttl_mode, fixed_ttl }
+}
+
+fn run_nsec3(data: &[u8], ctx: &mut Ctx) -> CaseResult {
+    let mut u = Unstructured::new(data);
+    let c = gen_n3cfg(&mut u);
+    let how = pick(&mut u, 3);
+    let via_refs = byte(&mut u) % 3 == 1;
+    let apex_case = byte(&mut u) % 4 == 1;
+    let nprobes = range(&mut u, 5, 24);
+    let z = gen_zone(&mut u, false);
+    let a = analyse(&z);
+    let interesting = zone_classes(&z, &a, ctx);
+    ctx.class(if c.opt_out { if c.exclude { "cfg:opt-out-excluding" } else { "cfg:opt-out-including" } } else { "cfg:no-opt-out" });
+    ctx.class(if c.dnskey { "cfg:assume-dnskey" } else { "cfg:no-dnskey" });
+    ctx.class(match c.ttl_mode {
+        0 => "cfg:nsec3param-ttl-soa",
+        1 => "cfg:nsec3param-ttl-soa-minimum",
+        _ => "cfg:nsec3param-ttl-fixed",
+    });
+    ctx.class(match c.salt.len() {
+        0 => "cfg:salt-0",
+        255 => "cfg:salt-255",
+        _ => "cfg:salt-other",
+    });
+    ctx.class(match c.iterations {
+        0 => "cfg:iterations-0",
+        1..=9 => "cfg:iterations-1..9",
+        _ => "cfg:iterations-10+",
+    });
+    ctx.sample(|| format!("salt_len={} it={} optout={} exclude={} dnskey={} {}", c.salt.len(), c.iterations, c.opt_out, c.exclude, c.dnskey, show_zone(&z)));
+
+    let sr = build_sorted(&z, how);
+    check_sorted(&z, &a, &sr)?;
+    let apex_l: Labels = if apex_case { z.apex.iter().map(|l| l.iter().map(|c| if c.is_ascii_alphabetic() { c ^ 0x20 } else { *c }).collect()).collect() } else { z.apex.clone() };
+    let apex = to_name(&apex_l);
+    let params = Nsec3param::new(Nsec3HashAlgorithm::SHA1, 0, c.iterations, Nsec3Salt::from_octets(Bytes::from(c.salt.clone())).expect("salt <= 255"));
+    let mut cfg = GenerateNsec3Config::<Bytes, DefaultSorter>::new(params);
+    if c.opt_out {
+        cfg = cfg.with_opt_out();
+    }
+    if !c.exclude {
+        cfg = cfg.without_opt_out_excluding_owner_names_of_unsigned_delegations();
+    }
+    if !c.dnskey {
+        cfg = cfg.without_assuming_dnskeys_will_be_added();
+    }
+    cfg = cfg.with_ttl_mode(match c.ttl_mode {
+        0 => Nsec3ParamTtlMode::Soa,
+        1 => Nsec3ParamTtlMode::SoaMinimum,
+        _ => Nsec3ParamTtlMode::Fixed(Ttl::from_secs(c.fixed_ttl)),
+    });
+    let refs: Vec<&R> = sr.iter().collect();
+    let res = if via_refs { generate_nsec3s(&apex, RecordsIter::new_from_refs(&refs), &cfg) } else { generate_nsec3s(&apex, sr.owner_rrs(), &cfg) };
+    let out = match res {
+        Ok(v) => v,
+        Err(e) => vfail!("nsec3:error-on-valid-zone", "generate_nsec3s returned {e:?} for {}", show_zone(&z)),
+    };
+
+    let excluding = c.opt_out && c.exclude;
+    let exp = a.expected_nsec3(excluding, c.dnskey);
+    // reverse map hash -> name over everything that could plausibly be hashed
+    let mut rev: BTreeMap<Vec<u8>, Labels> = BTreeMap::new();
+    {
+        let mut add = |n: &Labels| {
+            rev.insert(nsec3_hash(n, &c.salt, c.iterations).to_vec(), n.clone());
+        };
+        for r in &z.recs {
+            add(&lower(&r.owner));
+            if ends_with(&r.owner, &z.apex) {
+                for an in ancestors_within(&lower(&r.owner), &lower(&z.apex)) {
+                    add(&an);
+                }
+            }
+        }
+    }
+    let want_flags = if c.opt_out { 1u8 } else { 0 };
+    let mut chain: Vec<Nsec3Rec> = vec![];
+    for r in &out.nsec3s {
+        let owner = from_name(r.owner());
+        vensure!(
+            owner.len() == z.apex.len() + 1 && ends_with(&owner, &z.apex),
+            "nsec3:owner-is-not-one-label-plus-apex",
+            "{}",
+            show(&owner)
+        );
+        let Some(hash) = b32hex_decode(&owner[0]).filter(|h| h.len() == 20 && owner[0].len() == 32) else {
+            vfail!("nsec3:owner-label-is-not-base32hex-sha1", "{}", show(&owner));
+        };
+        let mut rd = vec![];
+        r.data().compose_rdata(&mut rd).expect("compose");
+        let p = match parse_nsec3_rdata(&rd) {
+            Ok(p) => p,
+            Err(e) => vfail!("nsec3:bitmap-malformed", "NSEC3 {}: {e}; rdata {:02x?}", show(&owner), rd),
+        };
+        let acc: BTreeSet<u16> = r.data().types().iter().map(|t| t.to_int()).collect();
+        vensure!(acc == p.types, "nsec3:bitmap-iter-differs-from-wire", "{:?} vs {:?}", acc, p.types);
+        vensure!(
+            p.alg == 1 && p.flags == want_flags && p.iterations == c.iterations && p.salt == c.salt,
+            "nsec3:parameters-not-copied",
+            "alg {} flags {} it {} salt {:02x?}; want 1 {want_flags} {} {:02x?}",
+            p.alg,
+            p.flags,
+            p.iterations,
+            p.salt,
+            c.iterations,
+            c.salt
+        );
+        vensure!(p.next.len() == 20, "nsec3:next-hash-length", "{}", p.next.len());
+        vensure!(r.class().to_int() == 1, "nsec3:class", "class {}", r.class());
+        vensure!(r.ttl().as_secs() == expected_ttl(&z), "nsec3:ttl", "NSEC3 TTL {} want min({}, {})", r.ttl().as_secs(), z.soa_ttl, z.soa_min);
+        chain.push(Nsec3Rec { hash, next: p.next, flags: p.flags, types: p.types });
+    }
+    // expected chain in hash order
+    let mut expv: Vec<(Vec<u8>, &Canon, &BTreeSet<u16>, bool)> = exp.iter().map(|(n, (t, e))| (nsec3_hash(&n.0, &c.salt, c.iterations).to_vec(), n, t, *e)).collect();
+    expv.sort_by(|x, y| x.0.cmp(&y.0));
+    let exp_hashes: BTreeMap<&Vec<u8>, usize> = expv.iter().enumerate().map(|(i, e)| (&e.0, i)).collect();
+    let denial_only = denial_only();
+    if !denial_only {
+    let mut seen = BTreeSet::new();
+    for r in &chain {
+        if !exp_hashes.contains_key(&r.hash) {
+            match rev.get(&r.hash) {
+                Some(n) => {
+                    let mut k = kind_of(&a, &z, n).to_string();
+                    if k == "ent" {
+                        k = "ent-leading-only-to-opted-out-delegations".into();
+                    }
+                    vfail!(format!("nsec3:chain-has-{k}"), "NSEC3 for {} ({k}); zone {}", show(n), show_zone(&z));
+                }
+                None => vfail!("nsec3:hash-matches-no-name-under-reference-hash", "{} ; zone {}", String::from_utf8_lossy(&b32hex(&r.hash)), show_zone(&z)),
+            }
+        }
+        vensure!(seen.insert(r.hash.clone()), "nsec3:duplicate-owner", "{}", String::from_utf8_lossy(&b32hex(&r.hash)));
+    }
+    for e in &expv {
+        if !seen.contains(&e.0) {
+            let mut k = kind_of(&a, &z, &e.1 .0).to_string();
+            if e.3 && a.shared_ent {
+                k = "ent-in-zone-with-shared-ent".into();
+            }
+            vfail!(format!("nsec3:chain-misses-{k}"), "no NSEC3 for {}; zone {}", show(&e.1 .0), show_zone(&z));
+        }
+    }
+    vensure!(chain.len() == expv.len(), "nsec3:chain-length", "{} vs {}", chain.len(), expv.len());
+    for (i, r) in chain.iter().enumerate() {
+        vensure!(r.hash == expv[i].0, "nsec3:chain-not-in-hash-order", "position {i}");
+        let want_next = &expv[(i + 1) % expv.len()].0;
+        if &r.next != want_next {
+            if i + 1 == chain.len() {
+                vfail!("nsec3:last-does-not-close-the-ring", "last next {:02x?} first {:02x?}", r.next, want_next);
+            }
+            vfail!("nsec3:next-hash-is-not-successor", "position {i}");
+        }
+        let k = if expv[i].3 { "ent" } else { kind_of(&a, &z, &expv[i].1 .0) };
+        let want = expv[i].2;
+        if let Some(t) = r.types.difference(want).next() {
+            vfail!(format!("nsec3:bitmap-extra-type-at-{k}"), "NSEC3 for {} lists type {t}; want {:?} got {:?}", show(&expv[i].1 .0), want, r.types);
+        }
+        if let Some(t) = want.difference(&r.types).next() {
+            vfail!(format!("nsec3:bitmap-missing-type-at-{k}"), "NSEC3 for {} lacks type {t}; want {:?} got {:?}", show(&expv[i].1 .0), want, r.types);
+        }
+    }
+    }
+    if expv.iter().any(|e| e.3) {
+        ctx.class("nsec3:ent-record");
+    }
+    if excluding && a.owners.values().any(|o| o.is_cut && !o.has_ds()) {
+        ctx.class("nsec3:delegation-opted-out");
+        let all = a.expected_nsec3(false, c.dnskey);
+        if all.iter().any(|(n, (_, e))| *e && !exp.contains_key(n)) {
+            ctx.class("nsec3:ent-leading-only-to-opted-out");
+        }
+    }
+    // NSEC3PARAM
+    {
+        let r = &out.nsec3param;
+        vensure!(name_eq(&from_name(r.owner()), &z.apex), "nsec3param:owner-not-apex", "{}", show(&from_name(r.owner())));
+        let d = r.data();
+        vensure!(
+            d.hash_algorithm().to_int() == 1 && d.iterations() == c.iterations && d.salt().as_slice() == &c.salt[..],
+            "nsec3param:parameters-differ-from-chain",
+            "it {} salt {:02x?}",
+            d.iterations(),
+            d.salt().as_slice()
+        );
+        let want = match c.ttl_mode {
+            0 => z.soa_ttl,
+            1 => z.soa_min,
+            _ => c.fixed_ttl,
+        };
+        vensure!(r.ttl().as_secs() == want, "nsec3param:ttl-mode", "mode {} ttl {} want {want}", c.ttl_mode, r.ttl().as_secs());
+    }
+    // denial probes
+    let mut pcl = vec![];
+    {
+        let mut cx = Nsec3Ctx::new(&chain, &c.salt, c.iterations);
+        let m = Nsec3Model { a: &a, expected: &exp, excluding };
+        for _ in 0..nprobes {
+            let (q, t) = gen_probe(&mut u, &z, &a);
+            if let Err((sig, d)) = nsec3_denial(&mut cx, &m, &q, t, &mut pcl) {
+                vfail!(sig, "probe ({}, {t}): {d}; zone {}", show(&q), show_zone(&z));
+            }
+        }
+    }
+    for c in pcl {
+        ctx.class(format!("nsec3-{c}"));
+    }
+    if interesting {
+        ctx.nontrivial(&(&z, &c.salt, c.iterations, c.opt_out, c.exclude, c.dnskey, how, via_refs));
+    }
+    Ok(())
+}
+
+//------------ bitmap ----------------------------------------------------------
+
+fn run_bitmap(data: &[u8], ctx: &mut Ctx) -> CaseResult {
+    let mut u = Unstructured::new(data);
+    let n = match pick(&mut u, 6) {
+        0 => 0,
+        1 => 1,
+        2..=4 => pick(&mut u, 12),
+        _ => pick(&mut u, 80),
+    };
+    let mut order: Vec<u16> = vec![];
+    for _ in 0..n {
+        let t = match pick(&mut u, 8) {
+            0 | 1 => [1u16, 2, 5, 6, 15, 16, 28, 43, 46, 47, 48, 50, 51][pick(&mut u, 13)],
+            2 => [0u16, 7, 8, 255, 256, 257, 263, 264, 511, 512, 1234, 65280, 65287, 65288, 65535, 32768, 0x7fff, 0xff00, 0x00ff][pick(&mut u, 19)],
+            3 => {
+                // same window as an earlier one
+                if order.is_empty() { u16_(&mut u) } else { (order[pick(&mut u, order.len())] & 0xff00) | byte(&mut u) as u16 }
+            }
+            4 => (byte(&mut u) as u16) << 8 | [0u16, 7, 8, 255, 248][pick(&mut u, 5)],
+            _ => u16_(&mut u),
+        };
+        order.push(t);
+    }
+    let set: BTreeSet<u16> = order.iter().copied().collect();
+    let windows: BTreeSet<u8> = set.iter().map(|t| (t >> 8) as u8).collect();
+    if windows.len() >= 3 {
+        ctx.class("bitmap:3+windows");
+    }
+    if order.len() != set.len() {
+        ctx.class("bitmap:duplicate-adds");
+    }
+    if order.windows(2).any(|w| (w[0] >> 8) > (w[1] >> 8)) {
+        ctx.class("bitmap:window-inserted-before-existing");
+    }
+    if set.is_empty() {
+        ctx.class("bitmap:empty");
+    }
+    let mut b = RtypeBitmapBuilder::<Vec<u8>>::new_vec();
+    for t in &order {
+        b.add(Rtype::from_int(*t)).expect("vec append");
+    }
+    let bm: RtypeBitmap<Vec<u8>> = b.finalize();
+    let raw = bm.as_slice().to_vec();
+    let dec = match decode_bitmap(&raw) {
+        Ok(d) => d,
+        Err(e) => vfail!("bitmap:malformed", "{e}: {:02x?} from adds {:?}", raw, order),
+    };
+    vensure!(dec == set, "bitmap:wrong-type-set", "added {:?} decoded {:?}", set, dec);
+    vensure!(raw == encode_bitmap(&set), "bitmap:octets-differ-from-reference-encoding", "{:02x?}", raw);
+    let it: Vec<u16> = bm.iter().map(|t| t.to_int()).collect();
+    vensure!(it == set.iter().copied().collect::<Vec<_>>(), "bitmap:iter-differs", "{:?} vs {:?}", it, set);
+    for t in set.iter().take(8) {
+        vensure!(bm.contains(Rtype::from_int(*t)), "bitmap:contains-false-for-member", "{t}");
+        let nb = t ^ 1;
+        vensure!(bm.contains(Rtype::from_int(nb)) == set.contains(&nb), "bitmap:contains-wrong-for-neighbour", "{nb}");
+    }
+    vensure!(RtypeBitmap::from_octets(raw.clone()).is_ok(), "bitmap:own-output-rejected", "{:02x?}", raw);
+    vensure!(bm.is_empty() == set.is_empty(), "bitmap:is_empty", "{:?}", set);
+    if windows.len() >= 2 {
+        ctx.nontrivial(&order);
+        ctx.sample(|| format!("adds {:?}", order));
+    }
+    Ok(())
+}
+
+//------------ hash ------------------------------------------------------------
+
+fn run_hash(data: &[u8], ctx: &mut Ctx) -> CaseResult {
+    let mut u = Unstructured::new(data);
+    let name = crate::gen::name::name(&mut u, false);
+    let c = gen_n3cfg(&mut u);
+    let apex: Labels = match pick(&mut u, 4) {
+        0 => vec![],
+        1 => vec![b"example".to_vec()],
+        2 => vec![b"EXAMPLE".to_vec(), b"Com".to_vec()],
+        _ => {
+            let mut n = crate::gen::name::name(&mut u, false);
+            while wire_len(&n) > 222 {
+                n.remove(0);
+            }
+            n
+        }
+    };
+    if name.iter().any(|l| l.iter().any(|b| b.is_ascii_uppercase())) {
+        ctx.class("hash:uppercase-in-name");
+    }
+    if wire_len(&name) >= 253 {
+        ctx.class("hash:long-name");
+    }
+    if name.is_empty() {
+        ctx.class("hash:root");
+    }
+    ctx.class(match c.salt.len() {
+        0 => "cfg:salt-0",
+        255 => "cfg:salt-255",
+        _ => "cfg:salt-other",
+    });
+    ctx.class(match c.iterations {
+        0 => "cfg:iterations-0",
+        _ => "cfg:iterations-1+",
+    });
+    let want = nsec3_hash(&name, &c.salt, c.iterations);
+    let salt = Nsec3Salt::from_octets(Bytes::from(c.salt.clone())).expect("salt");
+    let n = to_name(&name);
+    let got: OwnerHash<Vec<u8>> = match lib_nsec3_hash(&n, Nsec3HashAlgorithm::SHA1, c.iterations, &salt) {
+        Ok(h) => h,
+        Err(e) => vfail!("hash:error", "{e:?}"),
+    };
+    vensure!(
+        got.as_slice() == &want[..],
+        if c.iterations > 0 { "hash:differs-from-rfc5155-with-iterations" } else { "hash:differs-from-rfc5155" },
+        "name {} salt {:02x?} it {}: {:02x?} want {:02x?}",
+        show(&name),
+        c.salt,
+        c.iterations,
+        got.as_slice(),
+        want
+    );
+    // case-insensitive
+    let up: Labels = name.iter().map(|l| l.to_ascii_uppercase()).collect();
+    let got2: OwnerHash<Vec<u8>> = lib_nsec3_hash(&to_name(&up), Nsec3HashAlgorithm::SHA1, c.iterations, &salt).expect("hash");
+    vensure!(got2.as_slice() == &want[..], "hash:depends-on-case", "{}", show(&name));
+    // hashed owner name
+    let a = to_name(&apex);
+    let on: N = match mk_hashed_nsec3_owner_name::<N, Bytes, Bytes>(&n, Nsec3HashAlgorithm::SHA1, c.iterations, &salt, &a) {
+        Ok(x) => x,
+        Err(e) => vfail!("hash:owner-name-error", "{e:?}"),
+    };
+    let ol = from_name(&on);
+    vensure!(ol.len() == apex.len() + 1 && ends_with(&ol, &apex), "hash:owner-not-label-plus-apex", "{}", show(&ol));
+    vensure!(ol[0].to_ascii_lowercase() == b32hex(&want), "hash:owner-label-not-base32hex", "{} want {}", show(&ol), String::from_utf8_lossy(&b32hex(&want)));
+    ctx.nontrivial(&(&name, &c.salt, c.iterations));
+    ctx.sample(|| format!("{} salt_len={} it={}", show(&name), c.salt.len(), c.iterations));
+    let _ = u32_(&mut u);
+    Ok(())
+}
+
+//------------ registration ----------------------------------------------------
+
+fn health(c: &BTreeMap<String, u64>, _thorough: bool) -> Result<(), String> {
+    for k in [
+        "zone:apex-only",
+        "zone:signed-delegation",
+        "zone:unsigned-delegation",
+        "zone:glue-or-occluded",
+        "zone:occluded-ns-below-cut",
+        "zone:glue-sorts-last",
+        "zone:child-data-at-cut",
+        "zone:ent",
+        "zone:ent-shared",
+        "zone:ent-nested",
+        "zone:wildcard",
+        "zone:case-variant-owners",
+        "zone:out-of-zone-before",
+        "zone:out-of-zone-after",
+        "zone:root-apex",
+        "zone:three-or-more-windows-at-one-name",
+        "zone:type-in-window-255",
+        "zone:type-1234",
+        "zone:type-255",
+        "zone:type-256",
+        "cfg:opt-out-excluding",
+        "cfg:opt-out-including",
+        "cfg:no-opt-out",
+        "cfg:no-dnskey",
+        "cfg:salt-255",
+        "cfg:iterations-10+",
+        "nsec3:ent-record",
+        "nsec3:delegation-opted-out",
+        "nsec3:ent-leading-only-to-opted-out",
+        "nsec-probe:nxdomain",
+        "nsec-probe:nodata",
+        "nsec-probe:ent",
+        "nsec-probe:wildcard-exists",
+        "nsec-probe:below-or-at-cut",
+        "nsec3-probe:nxdomain",
+        "nsec3-probe:nodata",
+        "nsec3-probe:ent",
+        "nsec3-probe:wildcard-exists",
+        "nsec3-probe:opt-out-span",
+        "nsec3-probe:below-or-at-cut",
+        "bitmap:3+windows",
+        "bitmap:window-inserted-before-existing",
+    ] {
+        if c.get(k).copied().unwrap_or(0) < 20 {
+            return Err(format!("class {k} starved ({})", c.get(k).copied().unwrap_or(0)));
+        }
+    }
+    Ok(())
+}
 
 pub fn prop() -> Option<Prop> {
-    None
+    Some(Prop {
+        id: "C13",
+        rule: "a case is a generated zone (name tree under an apex with delegations, glue, occluded data, ENTs, wildcards, case variants, out-of-zone records, types in several bitmap windows) plus a generator configuration and 5..24 absent/present (name,type) probes; non-trivial = the zone has at least one non-authoritative name below a cut, or at least one empty non-terminal, or owner names that differ only in case (distinct by zone+configuration); bitmap cases are non-trivial with >= 2 windows, hash cases always",
+        assumptions: &[
+            "input domain: records sorted through SortedRecords (the documented precondition), one class, exactly one SOA and it is at the apex (other SOA records only below a cut), uniform TTL per RRset (Rrset::new panics otherwise by design), unsigned zone (no RRSIG/NSEC/NSEC3 records in the input), apex name <= 222 octets so that the hashed owner name fits (longer apexes make generate_nsec3s panic in append_origin; not generated)",
+            "NSEC3 zones are class IN (generate_nsec3s hard-codes Class::IN for its output)",
+            "reference: RFC 4034 §6.1 order, §4.1.2 bitmap decoder, RFC 5155 §5 hash on ring::digest SHA-1, RFC 4648 base32hex — all in props/c13/refs.rs, checked against the RFC examples in unit tests",
+            "with opt-out + exclusion the expected chain omits unsigned delegations and ENTs leading only to them (RFC 5155 §7.1)",
+        ],
+        subchecks: vec![
+            SubCheck::new("nsec", run_nsec, 40_000, 500_000, 1500),
+            SubCheck::new("nsec3", run_nsec3, 30_000, 300_000, 1500),
+            SubCheck::new("bitmap", run_bitmap, 100_000, 2_000_000, 300),
+            SubCheck::new("hash", run_hash, 40_000, 400_000, 700),
+        ],
+        health: Some(health),
+        extra: None,
+    })
 }
